@@ -81,8 +81,12 @@ namespace hs
                 if (small)
                 {
                     // one chunk, sometimes a bit more than one or two chunks (the 255/256 node edge)
-                    switch (r.below(4))
+                    switch (r.below(ns <= 8 ? 5 : 4))
                     {
+                    case 4:
+                        // several chunks in one block (3..6 x 255 nodes and a remainder)
+                        want = fm::memory_pool<fm::small_node_pool>::min_block_size(ns, 255 * r.range(3, 6) + r.below(200));
+                        break;
                     case 0:
                         want = mb;
                         break;
@@ -521,6 +525,10 @@ namespace hs
                 ++live;
                 break;
             case 1:
+                if (is_pool && r.chance(1, 12))
+                    p.add("aa", {obj(), fam, 0, (long long)r.size_biased(0, 4000), (long long)r.pick({0, 0, 1, 2, 3}), 1},
+                          fault()); // exactly max_array_size()
+                else
                 p.add("aa", {obj(), fam, (long long)r.size_biased(0, 39), (long long)r.size_biased(0, 4000),
                              (long long)r.pick({0, 0, 1, 2, 3, 3, 4, 4, 5})},
                       fault());
@@ -620,6 +628,7 @@ namespace hs
                 for (int pos = 0; pos < 4; ++pos)
                     p.add("bad", {kind, pos, (long long)r.below(1000)});
             p.add("bad", {0, 4, (long long)r.below(1000)});
+            p.add("bad", {0, 5, (long long)r.below(1000)});
             p.add("bad", {1, 4, (long long)r.below(1000)});
             p.add("bad", {1, 5, (long long)r.below(1000)});
             for (int k = 0; k < 4; ++k)
